@@ -103,7 +103,7 @@ def run(chk, replay=None):
         S.table_obligations(chk, env)
         chk.proof()
         S.probe_p13(env)
-        specs = [replay["input"]] if replay else cases(chk, env)
+        specs = ([replay["input"]] if "input" in replay else []) if replay else cases(chk, env)
         stats, rrs, infos, specs = S.drive(chk, env, "C11", specs, nontrivial, max_reports=6)
         chk.cov["distribution"] = stats
         chk.cov["p13_repaired_in_tree"] = env.p13_fixed
